@@ -513,6 +513,22 @@ Definition p_step (cfg : config) (t0 : Z) (m : mon) (pre : dump) (e : event) (o 
                    end) o) in
   (* C06: a task a worker keeps re-requesting is failed after the configured number of retries:
      count, per worker, how often it is told again to run the task it was already told to run *)
+  (* a completion report the scheduler accepts (it names the task the worker holds) ends that assignment: whatever the
+     worker is told next is a fresh assignment, also when a retry on the same size class hands it the very same task *)
+  let m := match e with
+           | EStartSync _ a _ =>
+             match y_state a, find_dworker pre (w_sk (y_worker a)) (wid (y_worker a)) with
+             | WCompleted d _, Some k =>
+               match dw_task k with
+               | Some ops0 =>
+                 if existsb (fun o => existsb (Nat.eqb (do_name o)) ops0 && (do_digest o =? d)%N) (d_ops pre)
+                 then m <| m_reissue := adel wref_eqb (y_worker a) (m_reissue m) |> else m
+               | None => m
+               end
+             | _, _ => m
+             end
+           | _ => m
+           end in
   let '(m, e_retry) :=
     fold_left (fun (acc : mon * string) x =>
       let '(m, err) := acc in
